@@ -257,12 +257,35 @@ pub fn evaluate_isolated(prop: Prop, trace: &Trace) -> Isolated {
     let (mut res, complete) = decode_result(&text);
     let died = match out.status {
         Status::Exited(0) if complete => None,
+        Status::Exited(c) if c == simalloc::EXIT_RETRY_STORM => {
+            res.viols.push((
+                format!("{}/hang/allocation-retry-loop", prop.id()),
+                format!(
+                    "[allocator {}] after an injected allocation failure the library requested memory more than 200000 times without returning: an unbounded retry loop (it never terminates on an exhausted heap)",
+                    trace.cfg.describe()
+                ),
+            ));
+            res.executions = res.executions.max(1);
+            None
+        }
         Status::Exited(c) => {
             res.herr = Some(format!("child exited with code {c} without completing"));
             None
         }
         Status::Signaled(s) => Some(s),
     };
+    if out.hung {
+        res.viols.push((
+            format!("{}/hang/no-progress", prop.id()),
+            format!(
+                "[allocator {}] the run produced no result for {} s and was killed: an operation does not terminate",
+                trace.cfg.describe(),
+                proc::SILENCE_LIMIT_MS / 1000
+            ),
+        ));
+        res.executions = res.executions.max(1);
+        return Isolated { res, died, oom_marker };
+    }
     if let Some(sig) = died {
         // The one legitimate death: std's handle_alloc_error after an injected
         // failure (Vec growth, Box::new). It announces itself on stderr.
